@@ -625,7 +625,7 @@ class VectorT {
         template<typename Functor>
         inline vector_type apply(const Functor& _func) const {
             vector_type result;
-            std::transform(result.values_.begin(), result.values_.end(),
+            std::transform(values_.cbegin(), values_.cend(),
                     result.values_.begin(), _func);
             return result;
         }
